@@ -64,6 +64,11 @@ class Summaries:
         if mode == 'true':
             if use == 'return' and 'bool' in (f.get('ret') or '').lower():
                 return 'true'
+            if use.startswith('init:') and 'bool' in (f.get('ret') or '').lower():
+                v = 'local:' + use[5:]
+                rets = [r for r in f.events() if r.k == 'return']
+                if rets and all((r.get('path') or '') == v for r in rets):
+                    return 'true'
             if use.startswith('assign:param:'):
                 pn = use.split(':')[2]
                 idx = next((i for i, p in enumerate(f['params']) if p['name'] == pn and '&' in p['type']), None)
@@ -142,6 +147,11 @@ def check_no_touch(ctx, db, rid, summ, functions=None, per_instance=False, floor
             for e in trig:
                 hits = []
                 allow = ALLOWED_AFTER.get((f['nname'], norm(e.callee)))
+                if allow is None:
+                    from .rules import only_reached_from
+                    for (fn_, callee_), v_ in ALLOWED_AFTER.items():
+                        if callee_ == norm(e.callee) and only_reached_from(db, f['nname'], {fn_}):
+                            allow = v_
                 for tr in traces:
                     for h in _scan(f, tr, e, summ, env):
                         if allow and re.search(allow[0], (h[0].get('recv') or h[0].get('path') or '')):
@@ -175,9 +185,9 @@ def _is_touch(it, obj, f, db, alias_this):
         r = it.get('recv') or ''
         if is_atomic_call(it):
             return None
-        if r and (rooted(r, obj)) and (r != obj or _is_member_call_touch(it, db)):
+        if r and (rooted(r, obj)) and _is_member_call_touch(it, db):
             return 'call of %s on %s' % (norm(it.callee), r)
-        if alias_this and r and rooted(r, 'this') and (r != 'this' or _is_member_call_touch(it, db)):
+        if alias_this and r and rooted(r, 'this') and _is_member_call_touch(it, db):
             return 'call of %s on %s (this may be the published object)' % (norm(it.callee), r)
     if it.k == 'delete' and (it.get('path') == obj):
         return 'delete of ' + obj
@@ -190,6 +200,25 @@ def _is_member_call_touch(it, db):
         c = db.get(k)
         if c is not None and c.get('static'):
             return False
+        if c is not None and _atomic_only(c, db):
+            return False
+    return True
+
+
+def _atomic_only(c, db, depth=2):
+    """a member function that touches its object only through atomic members (sync_awaiter::wait_sync: flag.wait) is as harmless after
+    publication as the atomic operation itself"""
+    for e in c.events():
+        p = e.get('recv') or e.get('path') or ''
+        if e.k in ('read', 'write') and (p.startswith('this->') or p.startswith('this.')):
+            return False
+        if e.k == 'call' and (p == 'this' or p.startswith('this->')):
+            if is_atomic_call(e):
+                continue
+            k2 = e.get('callee_key')
+            c2 = db.get(k2) if k2 else None
+            if c2 is None or depth == 0 or not _atomic_only(c2, db, depth - 1):
+                return False
     return True
 
 
